@@ -289,7 +289,7 @@ def run_check(pid, tier):
         # the Go fmt model is always available: a change to the code under test may start using fmt
         gj["models"] = dict(DEFAULT_MODELS)
         for k in ("sched", "preempt", "max_paths", "max_instrs", "unwind", "split_cap", "max_violations", "models",
-                  "init_allow", "noifconv", "solver", "oneshot_min", "fsmodel", "max_faults"):
+                  "init_allow", "noifconv", "floatsplit", "solver", "oneshot_min", "fsmodel", "max_faults"):
             if k in j:
                 if k == "models":
                     gj["models"].update(j[k])
